@@ -49,7 +49,9 @@ def gen(rng: random.Random, tier: str, index: int) -> dict:
     ops: List[list] = []
     for _ in range(rng.randint(2, 12)):
         r = rng.random()
-        if r < 0.3:
+        if r < 0.08 and fmt == "cdda":
+            ops.append(["touch"])          # library-level look at the image (children / get_info) without going through ls
+        elif r < 0.3:
             ops.append(["export"])
         elif r < 0.42:
             ops.append(["ls", rng.choice(["nope", "A/nope", "x/y/z", "//", "A:/../B", " ", paths[-1] + "/deeper"])])
@@ -118,6 +120,8 @@ def run(sc: dict) -> RunResult:
             if not listed and not seen_export:
                 res.probes["export_before_any_ls"] += 1
             seen_export = True
+        elif op[0] == "touch":
+            res.probes["library_touch"] += 1
         else:
             p = op[1].strip().strip("/")
             if seen_export:
@@ -141,6 +145,12 @@ def run(sc: dict) -> RunResult:
                 nexp = 0
                 for i, op in enumerate(ops):
                     key = digest_of(op)
+                    if op[0] == "touch":
+                        try:
+                            image.get_info().to_string()
+                        except Exception:      # noqa: BLE001
+                            pass
+                        continue
                     if op[0] == "ls":
                         r = tool.run_ls(image, op[1])
                         got = ("ls", r.stdout, r.exc)
@@ -160,11 +170,11 @@ def run(sc: dict) -> RunResult:
                     if got != want:
                         if op[0] == "ls":
                             res.add(PROP, "ls_depends_on_history", "op %d ls %r after %s differs from a fresh image (exc %s vs %s; %d vs %d chars)" % (
-                                i, op[1], [o[0] if o[0] == "export" else "ls " + o[1] for o in ops[:i]][-5:], got[2], want[2], len(got[1]), len(want[1])),
+                                i, op[1], [o[0] if o[0] != "ls" else "ls " + o[1] for o in ops[:i]][-5:], got[2], want[2], len(got[1]), len(want[1])),
                                 fmt=fmt, after_export=any(o[0] == "export" for o in ops[:i]))
                         else:
                             res.add(PROP, "export_depends_on_history", "op %d export after %s differs from a fresh image: %d vs %d files, exc %s vs %s, stdout equal %s" % (
-                                i, [o[0] if o[0] == "export" else "ls " + o[1] for o in ops[:i]][-5:], got[4], want[4], got[3], want[3], got[1] == want[1]),
+                                i, [o[0] if o[0] != "ls" else "ls " + o[1] for o in ops[:i]][-5:], got[4], want[4], got[3], want[3], got[1] == want[1]),
                                 fmt=fmt, second_export=any(o[0] == "export" for o in ops[:i]))
                         break
         if any(s.writes for s in sfs):
